@@ -22,7 +22,7 @@ NET_SAN := -fsanitize=address,bounds,integer-divide-by-zero -fno-sanitize-recove
 NET_REPO_CFLAGS := $(REPO_CFLAGS_COMMON) -O1 -DNDEBUG -fno-inline $(NET_SAN) $(COV) -I$(EX)
 NETB := $(B)/net
 NET_LIB_OBJS := $(patsubst $(REPO)/src/%.c,$(NETB)/lib/%.o,$(LIB_SRCS))
-NET_WRAPS := socket bind ioctl setsockopt close recv sendto read write poll clock_gettime clock_nanosleep sleep timerfd_create timerfd_settime rand exit malloc calloc realloc free
+NET_WRAPS := socket bind ioctl setsockopt close recv sendto read write poll clock_gettime clock_nanosleep sleep timerfd_create timerfd_settime rand exit malloc calloc realloc free getenv secure_getenv
 NET_WRAPFLAGS := $(foreach w,$(NET_WRAPS),-Wl,--wrap=$(w))
 
 # example program -> main symbol
@@ -65,7 +65,8 @@ $(NETB)/marker_end.o: sim/marker_end.c | dirs
 	$(CC) -O1 -fno-common -c $< -o $@
 
 # second copy of the example programs at -O0 (locals live on the stack: uninitialised pointers read the 0xA5 fill)
-NET_REPO_CFLAGS_O0 := $(REPO_CFLAGS_COMMON) -O0 $(NET_SAN) $(COV) -I$(EX)
+# (plain char is unsigned in the -O0 copies, as on AArch64/ARM Linux: C code must work with either signedness)
+NET_REPO_CFLAGS_O0 := $(REPO_CFLAGS_COMMON) -O0 -funsigned-char $(NET_SAN) $(COV) -I$(EX)
 EX_SRCS := $(shell find $(EX) -name '*.c' | sort)
 $(NETB)/examples_O0.o: $(EX_SRCS) $(LIB_SRCS) $(REPO_HDRS) Makefile tools/build_o0.sh $(B)/repo_config.mk | dirs
 	tools/build_o0.sh $(NETB)/exO0 $@ "$(CC)" "$(NET_REPO_CFLAGS_O0) $(REPO_EX_DEFS)" $(EX) "$(REPO_LIB_DEFS)" $(LIB_SRCS)
